@@ -497,11 +497,16 @@ def _chain1d(sh, case):
                 continue
             sh.count("evaluations")
             sh.count("sampler_probes", evals)
-            bad = [k for k in rates_s if not (0 <= k < len(axis)) or k == o]
-            if bad:
-                sh.violation(f"C04:sampler-mean:{meth.lower()}:state-outside-grid-or-origin:{mc}:{gc}",
-                             f"{label}: sampler returns axis indices {bad[:4]}", None)
+            # the origin carries x = 0 (no contribution whatever its length); a state off the axis on more than a few ulps of
+            # [0,1) has no value to weight (C02 judges the law itself, with the same allowance)
+            rates_s.pop(o, None)
+            bad = [k for k in rates_s if not 0 <= k < len(axis)]
+            if any(rates_s[k] > 4 * EPS * lam for k in bad):
+                sh.violation(f"C04:sampler-mean:{meth.lower()}:state-outside-grid:{mc}:{gc}",
+                             f"{label}: sampler returns axis indices {bad[:4]} of {len(axis)}", None)
                 continue
+            for k in bad:
+                del rates_s[k]
             got_s = pd + sum(axis[k] * r for k, r in rates_s.items())
             atol_s = ATOL + 4 * EPS * lam * sum(abs(axis[k]) for k in rates_s)
             if not core.close(got_s, want, rtol=rtol, atol=atol_s, scale=scale):
